@@ -64,3 +64,10 @@ MUTANTS += [
      [("src/pptx/chart/data.py", "    @property\n    def xlsx_blob(self):", "    @lazyproperty\n    def xlsx_blob(self):")],
      "R2.1 _BaseChartData.xlsx_blob"),
 ]
+
+MUTANTS += [
+    ("media-part-content-equality", "media parts compare equal when their SHA1 is equal",
+     [("src/pptx/parts/media.py", "    @lazyproperty\n    def sha1(self)",
+       "    def __eq__(self, other):\n        return isinstance(other, MediaPart) and self.sha1 == other.sha1\n\n    def __hash__(self):\n        return hash(self.sha1)\n\n    @lazyproperty\n    def sha1(self)")],
+     "R2.8 MediaPart.__eq__"),
+]
